@@ -200,7 +200,7 @@ const Ident kScopeZ2 = {"L3", "z", "2.0", "", {}};  // tracers / meters: the fou
 void run_configurator(vf::Ctx &c) {
   int signal = c.pick("signal", 3);
   bool dflt = c.pick("default", 2) == 0;
-  int maxlen = c.thorough() ? 4 : (int)strtol(c.opt().get("rules", "3").c_str(), nullptr, 10);
+  int maxlen = (int)strtol(c.opt().get("rules", c.thorough() ? "5" : "4").c_str(), nullptr, 10);
   int len = c.pick("rules", maxlen + 1);
   std::vector<Rule> rules;
   std::string desc = vf::sfmt("%s provider, default %s, rules [", kSignal[signal], dflt ? "enabled" : "disabled");
